@@ -80,15 +80,31 @@ def classify(reads, b, cn, margin=5):
 
 
 def write_bam(path, b, reads, rng):
-    import pysam
+    import pysam, random as _random
     ws, seq = b["win_start"], b["win_seq"]
+    # catalogued multi-base substitutions of the database: half of the reads show all their bases (the loader then merges the
+    # per-base observations into one and has to keep one observation per covered base: depth must not change)
+    mnps = sorted({(pos, op) for vs in b.get("alleles", {}).values() for pos, op in vs if ">" in op and len(op.split(">")[0]) >= 2}) if b.get("mnp_reads") else []
+
+    def with_mnps(st0, p0, n0, text):
+        if not mnps:
+            return text
+        t = list(text)
+        for pos, op in mnps:
+            alt = op.split(">")[1]
+            if _random.Random(st0 * 7919 + pos).random() < 0.5:
+                for j, ch in enumerate(alt):
+                    k = pos + j - (ws + p0)
+                    if ch != "." and 0 <= k < n0:
+                        t[k] = ch
+        return "".join(t)
     hdr = {"HD": {"VN": "1.0", "SO": "coordinate"}, "SQ": [{"SN": b["chr"], "LN": b["chrom_len"]}]}
     recs = []
     for st, cig, k in reads:
         q, p = [], st - ws
         for op, n in cig:
             if op in (0, 7, 8):
-                q.append(seq[p:p + n])
+                q.append(with_mnps(st, p, n, seq[p:p + n]) if op == 0 else seq[p:p + n])
                 p += n
             elif op == 2:
                 p += n
@@ -196,7 +212,9 @@ def gen_case(rng):
             "narrow_neutral": rng.random() < 0.4,
             # a catalogue WITHOUT insertions / deletions: Coverage.__init__ then keeps the insertion observations of the reads in the
             # table (it strips them only when the gene has indel variants), and the depth of a position must still exclude them
-            "no_indels": rng.random() < 0.4}
+            "no_indels": rng.random() < 0.4,
+            # a catalogue with multi-base substitutions, and reads that show them completely
+            "mnp_reads": rng.random() < 0.5}
 
 
 def run_case(chk, case, terms, post):
@@ -208,9 +226,12 @@ def run_case(chk, case, terms, post):
              "narrow_neutral": bool(case["custom_neutral"] and case.get("narrow_neutral")), "no_indels": bool(case.get("no_indels"))}
     with tempfile.TemporaryDirectory(dir=common.SCRATCH) as d:
         extra = {"kinds": {"snp": 6, "mnp": 1}} if case.get("no_indels") else {}
+        if case.get("mnp_reads"):
+            extra = {"kinds": {"snp": 5, "mnp": 4}} if case.get("no_indels") else {"kinds": {"snp": 5, "mnp": 4, "ins": 2, "del": 2}}
         yp, desc = gendb.write_db(d, rng, name="GEN", length=case["length"], pseudogene=case["pseudogene"], strands=case["strands"], **extra)
         build = case["build"]
         b = desc["builds"][build]
+        b["mnp_reads"] = bool(case.get("mnp_reads"))
         g = Gene(yp, genome=build)
         cn = list(b["neutral"])
         if case["custom_neutral"]:
